@@ -864,7 +864,7 @@ def shrink(case):
 
 
 MANIFEST = dict(
-    text=('Proof (Coq, 11 theorems, all closed under the global context): C07_roundtrip states for ALL boundaries, ALL field '
+    text=('Proof (Coq, 12 theorems, all closed under the global context): C07_roundtrip states for ALL boundaries, ALL field '
           'lists within the guards (names/file names free of double quotes and str.splitlines breaks, plain content types, no '
           'delimiter inside data, non-empty file names) and ALL in-memory thresholds the header blocks and text values fit in, '
           'that Request.POST on the body a browser sends succeeds and that POST/forms/files show exactly the submitted fields '
